@@ -153,9 +153,12 @@ class Sim:
             if ep.up:
                 # the daemon's loop runs its sweep once per iteration and catches up one retransmission per pass; the
                 # clock is frozen between events here, so let it catch up now (each pass is an event of its own)
+                # (a pass that removes an ended IKE_SA from the list it walks serves the next entry one pass late: go on until a
+                # pass neither transmits nor changes the table, so that no timer work is left over for a later delivery event)
                 for _ in range(8):
+                    before = [(id(q), q.state) for q in ep.sas]
                     ev = self.event('tick', ep, lambda ep=ep: ep.step(), op=op, info={'dt': dt})
-                    if not ev.out:
+                    if not ev.out and before == [(id(q), q.state) for q in ep.sas]:
                         break
 
     def apply(self, op):
